@@ -163,14 +163,14 @@ def run_property(prop, tier, seed, root):
     # ---- bounded layer (stand-in; never counted as proved)
     bounded = {"evaluations": 0, "mismatches": 0, "skipped": 0, "distinct_nontrivial": 0, "samples": [], "bounds": cfg.get("bounded_bounds", "")}
     n_per = cfg.get("bounded_per_instance", {"quick": 4, "thorough": 40})[tier]
-    if n_per and not errors:
+    if not errors:
         pb = pb or import_repo(root)
         seen_inputs = set()
         for c in selected:
             if getattr(c, "no_bounded", False):
                 continue
             bad_here = 0
-            for inst in c.instances:
+            for inst in (c.instances if n_per else []):
                 for t in range(n_per):
                     nm = ConcNamer(rng=rng)
                     try:
